@@ -68,7 +68,7 @@ fn run_v1(v: &Value) -> Value {
         Err(e) => json!({"outcome": "invalid_module", "error": e.to_string()}),
         Ok(ReceiveResult::Success { logs, state_changed, return_value, remaining_energy, trace }) => json!({
             "outcome": "success", "rv": hex::encode(&return_value), "logs": logs.iterate().map(hex::encode).collect::<Vec<_>>(),
-            "state_changed": state_changed, "remaining": remaining_energy.energy, "trace": trace_json(&trace)}),
+            "state_changed": state_changed, "remaining": remaining_energy.energy, "trace": trace_json(&trace), "memory_alloc": trace.memory_alloc.energy, "operation": trace.operation.energy}),
         Ok(ReceiveResult::Interrupt { remaining_energy, state_changed, logs, interrupt, trace, .. }) => {
             let (tag, detail) = match &interrupt {
                 v1::Interrupt::Transfer { to, amount } => (0, json!({"to": hex::encode(to.0), "amount": amount.micro_ccd})),
@@ -85,12 +85,12 @@ fn run_v1(v: &Value) -> Value {
                 v1::Interrupt::QueryContractName { address } => (8, json!({"index": address.index, "subindex": address.subindex})),
             };
             json!({"outcome": "interrupt", "tag": tag, "detail": detail, "logs": logs.iterate().map(hex::encode).collect::<Vec<_>>(),
-                   "state_changed": state_changed, "remaining": remaining_energy.energy, "trace": trace_json(&trace)})
+                   "state_changed": state_changed, "remaining": remaining_energy.energy, "trace": trace_json(&trace), "memory_alloc": trace.memory_alloc.energy})
         }
         Ok(ReceiveResult::Reject { reason, return_value, remaining_energy, trace }) => {
             json!({"outcome": "reject", "reason": reason, "rv": hex::encode(&return_value), "remaining": remaining_energy.energy, "trace": trace_json(&trace)})
         }
-        Ok(ReceiveResult::Trap { error, remaining_energy, trace }) => json!({"outcome": "trap", "error": format!("{:#}", error), "remaining": remaining_energy.energy, "trace": trace_json(&trace)}),
+        Ok(ReceiveResult::Trap { error, remaining_energy, trace }) => json!({"outcome": "trap", "error": format!("{:#}", error), "remaining": remaining_energy.energy, "trace": trace_json(&trace), "memory_alloc": trace.memory_alloc.energy}),
         Ok(ReceiveResult::OutOfEnergy { trace }) => json!({"outcome": "out_of_energy", "remaining": 0, "trace": trace_json(&trace)}),
     };
     // resulting state as the chain would see it
